@@ -22,7 +22,7 @@ func resolveObj(v ssa.Value) ssa.Value {
 			}
 			v = b
 		case *ssa.Parameter:
-			if x.Parent().Parent() != nil {
+			if bindableParam(x) {
 				if a := closureArg(x); a != nil {
 					v = a
 					continue
